@@ -683,7 +683,15 @@ def apply_trailing_trivia(rebuilt: str, after: list[Any], *, indent: int) -> str
         return rebuilt
     if isinstance(after[0], Comment) and after[0].inline:
         inline_comment = after[0].rebuild(indent=0)
-        trailing = format_trivia(after[1:], indent=indent)
+        # Only one comment fits behind the code; a second end-of-line comment
+        # (`v # a\n; # b`) goes on a line of its own, indented like one.
+        rest = [
+            item.model_copy(update={"inline": False})
+            if isinstance(item, Comment) and item.inline
+            else item
+            for item in after[1:]
+        ]
+        trailing = format_trivia(rest, indent=indent)
         trailing = trim_trailing_layout_newline(after, trailing)
         return f"{rebuilt} {inline_comment}" + (f"\n{trailing}" if trailing else "")
 
